@@ -20,6 +20,7 @@ pub fn profile(name: &str) -> Option<GenFn> {
         "registry" => genp::registry,
         "broker" => genp::broker,
         "burst" => genp::burst,
+        "svckeep" => genp::svckeep,
         "svcfaults" => genp::svcfaults,
         _ => return None,
     })
